@@ -9,7 +9,10 @@
 #            GOARCH=arm64) whose violations are merged, plus the sensitivity self-test: every
 #            variant of /verif/variants and every kept seeded change for this property
 #            is applied to a scratch copy of the working tree (outside /repo and
-#            /verif, deleted afterwards) and must be reported by the analysis.
+#            /verif, deleted afterwards) and must be reported by the analysis; every
+#            behaviour-preserving control of /verif/refactors must stay silent.  A missed
+#            variant or an alarm on a control means the CHECK is broken (exit 2), enforced
+#            when /repo is the commit the corpus is calibrated for.
 set -u
 cd /verif || exit 2
 # GOSUMDB=off / GOTOOLCHAIN=local would break the offline switch to the go1.24.2
@@ -56,6 +59,16 @@ PY
 rc=$?
 tail -1 /verif/.cache/selftest_$ID.out
 tail -1 /verif/.cache/refactor_$ID.out
+# The variants, seeded changes and controls are calibrated against one commit of /repo (the
+# one named in variants/CALIBRATED_AT).  On any other tree (a patch applied, other commits) an
+# edit of the corpus may mean something else, so its outcome is recorded in the evidence but is
+# not allowed to turn the verdict on the property into "no verdict".
+STRICT=0
+if [ "$(git -C /repo rev-parse HEAD 2>/dev/null)" = "$(cat /verif/variants/CALIBRATED_AT 2>/dev/null)" ] && git -C /repo diff --quiet HEAD 2>/dev/null; then STRICT=1; fi
+if [ $STRICT -eq 0 ] && { [ $src -ne 0 ] || [ $rrc -ne 0 ]; }; then
+  echo "note property=$ID: the working tree is not the commit the self-test corpus is calibrated for; its results are recorded in the evidence and not enforced" >&2
+  exit $rc
+fi
 if [ $rc -eq 0 ] && [ $rrc -ne 0 ]; then
   grep -E "FALSE-ALARM|BROKEN" /verif/.cache/refactor_$ID.out
   echo "NO-VERDICT property=$ID: a behaviour-preserving refactoring raises an alarm: the check is broken, not the property" >&2
